@@ -41,6 +41,27 @@ def budget_params(b):
     return out
 
 
+def budget_test_before(b, fl, k, site_bb):
+    """parameter k is compared with 0 / 1 in a block that dominates site_bb and ends in a switch one of whose outcomes cannot reach site_bb:
+    the exhausted budget really keeps the call from happening (a test in a sibling arm, or one that only logs, does not)"""
+    cfg = CFG(b)
+    for i, bb in enumerate(b["blocks"]):
+        t = bb["term"]
+        if t["k"] != "switch" or not cfg.dominates(i, site_bb):
+            continue
+        for s in bb["stmts"]:
+            if s[0] == "assign" and s[2][0] == "binop" and s[2][1] in ("Eq", "Le", "Lt", "Ge", "Gt", "Ne") and F.op_local(t["discr"]) == s[1][0] and \
+                    (F.const_int(s[2][3]) in (0, 1) or F.const_int(s[2][2]) in (0, 1)):
+                o = s[2][2] if F.const_int(s[2][3]) in (0, 1) else s[2][3]
+                l = F.op_local(o)
+                if l is None or not fl.derives_from_arg(l, k):
+                    continue
+                succ = {a[1] for a in t["arms"]} | {t.get("otherwise")}
+                if any(x is not None and x != site_bb and site_bb not in cfg.reachable_from(x, avoid={i}) for x in succ):
+                    return True
+    return False
+
+
 def decremented_from(b, fl, op, k):
     """operand derives from parameter k through a subtraction of a constant >= 1"""
     l = F.op_local(op)
@@ -148,10 +169,13 @@ class Rec:
             ints = [kk for kk in range(1, cb["argc"] + 1) if cb["locals"][kk]["s"] in ("usize", "u32", "u8", "u16", "u64")]
             for a in t["args"]:
                 for ku in ints:
-                    if via == caller and decremented_from(cb, fl, a, ku):
+                    if via == caller and decremented_from(cb, fl, a, ku) and budget_test_before(cb, fl, ku, bb):
                         return "budget"
                     if via != caller and via.startswith(caller + "::{closure#") and decremented_in_closure(self.f, cb, fl, self.f.bodies[via], a, ku):
-                        return "budget"
+                        # the test has to come before the closure is built
+                        lits = [i for i, j, st in F.stmts(cb) if st[0] == "assign" and st[2][0] == "aggregate" and st[2][1].get("k") == "closure" and st[2][1].get("closure") == via]
+                        if lits and all(budget_test_before(cb, fl, ku, i) for i in lits):
+                            return "budget"
         return None
 
     def follows(self, k, seen=None):
